@@ -88,6 +88,8 @@ def schema_places(s, defs, out, depth=0):
     elif isinstance(it, list):
         for x in it:
             schema_places(x, defs, out, depth + 1)
+    if isinstance(s.get("additionalItems"), dict):
+        schema_places(s["additionalItems"], defs, out, depth + 1)
     for k, v in (s.get("properties") or {}).items():
         schema_places(v, defs, out, depth + 1)
     ap = s.get("additionalProperties")
@@ -107,7 +109,10 @@ def shaped_schema(rng, depth, members=True):
     if r < 0.40:
         return {"type": "array", "items": shaped_schema(rng, depth - 1, members)}
     if r < 0.48:
-        return {"type": "array", "items": [shaped_schema(rng, depth - 1, members) for _ in range(rng.randint(1, 2))]}
+        t = {"type": "array", "items": [shaped_schema(rng, depth - 1, members) for _ in range(rng.randint(1, 2))]}
+        if rng.random() < 0.2:
+            t["additionalItems"] = shaped_schema(rng, depth - 1, members)     # not Swagger 2.0, but the walkers descend into it
+        return t
     if r < 0.58:
         return {"type": "object", "additionalProperties": shaped_schema(rng, depth - 1, members)}
     if r < 0.68:
